@@ -78,3 +78,33 @@ pub fn run(args: &[String]) {
     });
     for evs in res { for e in evs { t.line(&json!({"ev":"reset"})); t.line(&e); } }
 }
+
+// ------------------------------------------------------------------------------------------------
+// C08: the interaction elements each layout draws, by field name, with the hooked transcript events
+fn ie_one<L: LayoutTrait + GenericLayoutTrait>(layout: &str, proof: &StarkProof, seed: Felt) -> Vec<Value>
+where L::InteractionElements: serde::Serialize {
+    use swiftness_transcript::verif;
+    let _ = verif::take();
+    let mut tr = Transcript::new(seed);
+    let com = L::traces_commit(&mut tr, &proof.unsent_commitment.traces, proof.config.traces.clone());
+    let events = verif::take();
+    let mut out = vec![json!({"ev":"reset","layout":layout})];
+    // events: absorb(original), squeeze x n, absorb(interaction): keep up to the last squeeze
+    let ann = crate::cmd_table::annotate_all(&events);
+    let last_sq = ann.iter().rposition(|e| e["ev"] == "squeeze").unwrap_or(0);
+    for e in &ann[..=last_sq] { out.push(e.clone()); }
+    out.push(json!({"ev":"ie","layout":layout,"elements": serde_json::to_value(&com.interaction_elements).unwrap()}));
+    out
+}
+/// args: <trace.ndjson> <rounds>
+pub fn run_ie(args: &[String]) {
+    let mut t = Out::file(&args[0]);
+    let rounds: u64 = args[1].parse().unwrap();
+    let mut rng = Rng::from_env(0xC08E);
+    for (layout, proof) in bases() {
+        for _ in 0..rounds {
+            let seed = rng.felt();
+            for e in real::dispatch!(layout.as_str(), ie_one, &layout, &proof, seed) { t.line(&e); }
+        }
+    }
+}
